@@ -141,8 +141,9 @@ func (s *scanner) Length() (uint, error) {
 		}
 
 		length = uint(lex.End()) + 1
-		if lex.End() == s.dataSize {
-			length--
+		if length > uint(s.dataSize) {
+			// Lexemes closed by the end of the input end behind its last byte.
+			length = uint(s.dataSize)
 		}
 	}
 	for ; length > 0; length-- {
